@@ -1380,7 +1380,7 @@ def find_version(segments, error, eci, micro, is_sa=False):
     :rtype: int
     """
     assert not (eci and micro)
-    micro_allowed = micro or micro is None
+    micro_allowed = (micro or micro is None) and not eci  # ECI is not available in Micro QR Codes
     min_version = consts.VERSION_M1 if micro_allowed else 1
     max_version = consts.VERSION_M4 if micro else 40
     if min_version < 1:
